@@ -60,8 +60,8 @@ CHECKS = {
    note=""),
  "C14": dict(engine=E1, cat="model_checking", ref="DESIGN.md §3 C14",
    technique="exhaustive enumeration of soft-requirement universes (F5) + brute-force oracle",
-   text="F5 (13 skeletons + unreferenced package z with back-references, every subset of <= 2/3 soft/exclude/lock/unknown/hint/requirement decorations), F1 x one soft solvable, F11 (sequences of two soft requirements sharing helper packages, also under hints on the shared packages only) and F12 (a soft requirement revealing further candidates of an installed package): hard verdict unchanged by soft requirements, returned set valid with the documented exemption, supported, inclusion of a compatible first soft solvable, impossible soft solvables absent.",
-   note="Inclusion rule evaluated for the first soft solvable of the list only."),
+   text="F5 (13 skeletons + unreferenced package z with back-references, every subset of <= 2/3 soft/exclude/lock/unknown/hint/requirement decorations), F1 x one soft solvable, F11 (sequences of two soft requirements sharing helper packages, also under hints on the shared packages only) F12 (a soft requirement revealing further candidates of an installed package) and F13 (a directly named soft solvable of a locked / excluded package before or after a soft requirement that requires or constrains the package, with an unrelated third soft solvable at the end or in the middle): hard verdict unchanged by soft requirements, returned set valid with the documented exemption, supported, inclusion of a compatible first soft solvable and of every later soft solvable whose closure touches no package that the root or any other soft requirement can reach, impossible soft solvables absent.",
+   note="Inclusion rule evaluated for the first soft solvable and for later soft solvables that are independent of all others (no shared reachable package); dependent later ones are only judged by validity."),
  "C15": dict(engine=E1, cat="model_checking", ref="DESIGN.md §3 C15",
    technique="enumeration of candidate counts n<=N, all pairs, all discovery shapes; at-most-one encoding certified from the clause dump",
    text="One package with n candidates for every n <= 17 (quick) / 130 (thorough); every discovery shape of the menu (all at once, every arrival permutation for n <= 5, identity/reverse/interleaved/rotations above, blocks, two-phase at the split points, discovery under decisions that are later reverted, candidates that are false when a lazily fetched requirer reveals them, overlapping / growing / repeated revelations, wanted candidates listed first); every pair must be Unsolvable, every single candidate selectable, also when the same problem is solved a second time on the same solver; the dumped forbid clauses (of both solves) must be exactly an at-most-one.",
